@@ -56,7 +56,7 @@ CHECKS = {
          "DESIGN.md section 4 C09", True),
  "C10": ("fault_enumeration",
          "For ~100 container shapes around instrumented element types (heap-holding Tr, fallible zero-sized Zf, droppable zero-sized Zd; GenericArray; three-field transparent structs) (arrays, Box/Rc/Arc, Vec/VecDeque/BinaryHeap/LinkedList/BTreeSet/BTreeMap, Option/Result/tuples, derived struct/enum, four repr(transparent) shapes incl. multi-field with a fallible zero-sized field, two-deep nestings) x N in {0,1,2,3,8,40} (and 1100/2100 to cross the 16 KiB chunk window) x 3 bases, EVERY fault position of EVERY kind is enumerated after a dry run counted the calls: element decoder Err / panic at each element, malformed zero-sized field, truncation at each byte, read error at each read call (with/without partial consumption), I/O error and panic in each Read::read call, descend_ref / on_before_alloc_mem error at each call, panic inside the input at each call, binding depth and mem limits, also under non-binding wrapper layers. Oracles: construction/drop ledger (constructed == dropped, nothing twice, nothing alive after a failed call, everything alive after success) and allocator (net bytes requested during call + drop == 0).",
-         "Big instances (N > 100) sample positions (every 61st, around chunk multiples, ends). The thorough command additionally interprets the scenario (instances with N <= 8, every 7th case) under Miri (Stacked Borrows, leaks, invalid assume_init); the quick command does not.",
+         "Big instances (N > 100) sample positions (every 61st, around chunk multiples, ends). The thorough command additionally interprets the scenario (instances with N <= 8, every 19th case) under Miri (Stacked Borrows, leaks, invalid assume_init); the quick command does not.",
          "deterministic simulation: exhaustive fault-position enumeration per case at the element-decoder, Input and wrapper seams, with ledger + allocator oracles",
          "DESIGN.md section 4 C10", True),
  "C11": ("fault_enumeration",
